@@ -584,7 +584,8 @@ def cells_C12(tier, consts):
     for m, t in combos:
         d = {"DIMS_OUT": m, "OUT_SCALAR_T": t}
         for fl in ("debug", "ndebug"):
-            for h, f in (("copy_assign_distinct", "array_copy_assign"), ("copy_assign_self", "array_copy_assign"), ("copy_ctor", "array_copy_ctor")):
+            for h, f in (("copy_assign_distinct", "array_copy_assign"), ("copy_assign_self", "array_copy_assign"), ("copy_ctor", "array_copy_ctor"),
+                         ("default_ctor", "array_default_ctor"), ("size_ctor", "array_size_ctor"), ("adopt_ctor", "array_adopt_ctor")):
                 cells.append(Cell("own.%s.M%d.%s.%s" % (h, m, t, fl), "array_own", "h_array_%s" % h, defines=d, flavour=fl, enforce=f,
                                   extra_checks=["--memory-leak-check", "--unsigned-overflow-check"], object_bits=10,
                                   backends=(("sat", 600), ("cadical", 600)), closes_loops="loop-free (memcpy is CBMC's array copy)",
@@ -593,7 +594,7 @@ def cells_C12(tier, consts):
 
 
 PROPS["C12"] = {
-    "level_text": "the hand-written ownership operations of the array backend (copy constructor, copy assignment incl. self-assignment) proved to preserve the representation invariant and the plain-array model for all sizes, contents and aliasings: returns *this, target equals source element-wise, source unchanged, storage not shared, no leak / double free / use after free; by induction over operations this covers every history of those operations",
+    "level_text": "the hand-written ownership operations of the array backend (default / sized / adopting constructors, copy constructor, copy assignment incl. self-assignment and moved-from targets) proved to preserve the representation invariant and the plain-array model for all sizes, contents and aliasings: returns *this, target equals source element-wise, source unchanged, storage not shared, no leak / double free / use after free; by induction over operations this covers every history of those operations",
     "level_note": "defaulted and implicit special members (moves, wrapper layers, field) are assumed to act member-wise as the standard says; std::unique_ptr/make_unique modelled by heap stubs; conversions and dump/load are C05/C06",
     "design_ref": "DESIGN.md section 5 (C12)",
     "cells": cells_C12, "consts": False,
